@@ -711,6 +711,10 @@ class Prettier:
 			フォーマット文字列
 		"""
 		pretty_patterns = ' '.join([cls._pretty_pattern_entry(pattern) for pattern in patterns.entries])
+		# 繰り返しなしの単一要素のグループは括弧で囲ったグループを表す @see ASTSerializer._for_expr_rep
+		if patterns.rep == Repeators.NoRepeat and len(patterns.entries) == 1:
+			return f'({pretty_patterns})'
+
 		return cls._deco_repeat(pretty_patterns, patterns.rep)
 
 	@classmethod
